@@ -42,7 +42,12 @@ func runGenerate(prof *Profile, seed uint64, verbose bool) (res *RunResult) {
 		}
 	}()
 	r := NewRng(seed)
-	s = NewSim(prof)
+	if prof.ModeBEvery > 0 && seed%uint64(prof.ModeBEvery) == 0 {
+		s = newModeBSim(prof)
+		res.Trace = append(res.Trace, Op{ID: 0, K: "mode", Msg: "B"})
+	} else {
+		s = NewSim(prof)
+	}
 	s.Verbose = verbose
 	g := newGen(r, prof)
 	steps := prof.StepsMin + r.Intn(prof.StepsMax-prof.StepsMin+1)
@@ -80,7 +85,11 @@ func runReplay(prof *Profile, trace []Op, verbose bool) (res *RunResult) {
 			}
 		}
 	}()
-	s = NewSim(prof)
+	if len(trace) > 0 && trace[0].K == "mode" && trace[0].Msg == "B" {
+		s = newModeBSim(prof)
+	} else {
+		s = NewSim(prof)
+	}
 	s.Verbose = verbose
 	for _, op := range trace {
 		s.curOp = op.ID
